@@ -78,8 +78,27 @@ func checkSIDs(seedA, seedB uint64) string {
 	srv := ecdhKey(seedA, "srv")
 	noop1 := func(*btcec.PublicKey) error { return nil }
 	noop2 := func([]byte) error { return nil }
-	cdC := mailbox.NewConnData(cli, nil, passA, nil, noop1, noop2)
-	cdS := mailbox.NewConnData(srv, nil, passA, []byte("auth"), noop1, noop2)
+	// The two parties' own callbacks call back into their ConnData, which
+	// SetRemote / SetAuthData explicitly allow (they run the callback without
+	// holding the lock "since we don't know what will be called in this
+	// callback"): an application that logs or retires the pairing session
+	// from the callback reads SID() at that very moment.
+	var cdC, cdS *mailbox.ConnData
+	reenter := func(cd **mailbox.ConnData) (func(*btcec.PublicKey) error, func([]byte) error) {
+		touch := func() {
+			if c := *cd; c != nil {
+				_, _ = c.SID()
+				_ = c.RemoteKey()
+				_ = c.AuthData()
+				_ = c.HandshakePattern()
+			}
+		}
+		return func(*btcec.PublicKey) error { touch(); return nil }, func([]byte) error { touch(); return nil }
+	}
+	c1, c2 := reenter(&cdC)
+	s1, s2 := reenter(&cdS)
+	cdC = mailbox.NewConnData(cli, nil, passA, nil, c1, c2)
+	cdS = mailbox.NewConnData(srv, nil, passA, []byte("auth"), s1, s2)
 	sc, e1 := sidOf(cdC)
 	ss, e2 := sidOf(cdS)
 	if e1+e2 != "" {
